@@ -36,6 +36,10 @@ def run(tier, seed):
                                  "--rounds", "20"]) for i in range(4 if tier == "quick" else 24)]
     free += [("free_rngp_%d" % i, ["--seed", str(rng.randrange(1 << 30)), "--threads", "3", "--ops", "20", "--keys", "4",
                                   "--rounds", "6", "--pers", "1", "--blocks", "56"]) for i in range(2 if tier == "quick" else 10)]
+    # create / delete churn on two keys with a deep ordered index (background keys), tight loops
+    free += [("churn_%d" % i, ["--seed", str(rng.randrange(1 << 30)), "--threads", "3", "--ops", "150", "--keys", "2",
+                               "--rounds", "12", "--churn", "1", "--background", "20000"])
+             for i in range(4 if tier == "quick" else 24)]
     collect(PROP, ce.run_free(fxv, rd, free), rd, ["RangeStable"], viol, cst)
     st["traces"] += cst["traces"]; st["states"] += cst["states"]; st["transitions"] += cst["transitions"]
     st["events"] += cst["events"]
